@@ -186,7 +186,12 @@ class CacheFactory(object):
             finally:
                 self.lock.release()
         else:
-            self.expiredCache[id] = ref(obj)
+            # getAll() iterates over self.expiredCache under the lock
+            self.lock.acquire()
+            try:
+                self.expiredCache[id] = ref(obj)
+            finally:
+                self.lock.release()
 
     def cull(self):
         """Runs through the cache and expires objects
